@@ -311,6 +311,7 @@ def evolution_d_cross(rT, rL, r0=None):
 
 
 def precession_d_tau(tau, g):
+    tau, g = common.expand_arrays(tau, g, append=True)
     rT = 2j * np.pi * g * tau
     mat, _ = evolution_operator(rT, rL=0, r0=None)
     mat[..., 1] *= -2j * np.pi * g
@@ -320,6 +321,7 @@ def precession_d_tau(tau, g):
 
 
 def precession_d_g(tau, g):
+    tau, g = common.expand_arrays(tau, g, append=True)
     rT = 2j * np.pi * g * tau
     mat, _ = evolution_operator(rT, rL=0, r0=None)
     mat[..., 1] *= -2j * np.pi * tau
@@ -329,6 +331,7 @@ def precession_d_g(tau, g):
 
 
 def precession_d2_tau(tau, g):
+    tau, g = common.expand_arrays(tau, g, append=True)
     rT = 2j * np.pi * g * tau
     mat, _ = evolution_operator(rT, rL=0, r0=None)
     mat[..., 1] *= (-2j * np.pi * g) ** 2
@@ -338,6 +341,7 @@ def precession_d2_tau(tau, g):
 
 
 def precession_d2_g(tau, g):
+    tau, g = common.expand_arrays(tau, g, append=True)
     rT = 2j * np.pi * g * tau
     mat, _ = evolution_operator(rT, rL=0, r0=None)
     mat[..., 1] *= (-2j * np.pi * tau) ** 2
@@ -347,6 +351,7 @@ def precession_d2_g(tau, g):
 
 
 def precession_d_tau_g(tau, g):
+    tau, g = common.expand_arrays(tau, g, append=True)
     rT = 2j * np.pi * g * tau
     mat, _ = evolution_operator(rT, rL=0, r0=None)
     mat[..., 1] *= -2j * np.pi * (1 - 2j * np.pi * g * tau)
